@@ -153,6 +153,10 @@ func rawInputs(dir string) []Input {
 		{Marker: "T-1", Rotate: -1}, {Marker: "T-2", Rotate: 90, MediaBox: "[0 0 200 300]"},
 		{Marker: "T-3", Rotate: -1, CropBox: "[10 10 100 100]", Streams: 3}, {Marker: "T-4", Rotate: 180}, {Marker: "T-5", Rotate: -1},
 	}, rawpdf.MarkerOpts{Fanout: 2, InheritRotate: 270, InfoDict: "/Title (Layout (test)) /Author <FEFF00410042> /Keywords (a, b)"}).Bytes())
+	// the same kind of document kept in an object stream with a cross-reference stream
+	add("objstm4", bytesObjStm(rawpdf.MarkerDoc([]rawpdf.PageSpec{
+		{Marker: "O-1", Rotate: -1}, {Marker: "O-2", Rotate: 90}, {Marker: "O-3", Rotate: -1, Streams: 2}, {Marker: "O-4", Rotate: -1},
+	}, rawpdf.MarkerOpts{Fanout: 2, InfoDict: "/Title (in object stream)"})))
 	// free objects, an unreferenced object, an indirect /Length, stream data starting with LF / ending with CR
 	{
 		d := rawpdf.MarkerDoc([]rawpdf.PageSpec{{Marker: "F-1", Rotate: -1}, {Marker: "F-2", Rotate: -1}}, rawpdf.MarkerOpts{InfoDict: "/Title (free)"})
